@@ -35,9 +35,12 @@ func (t *treq) argv() [][]byte {
 var strPool = []string{"k", "key1", "v", "", "a b", "x\r\ny", "\x00\xff\xfe", "+OK", "*1\r\n", "$-1", "NX", "match", "0", "-1", "1.5", "héllo", "\r\n+OK\r\n"}
 
 var intPool = []string{"0", "1", "-1", "5", "10", "100", "2147483648", "-9223372036854775808", "9223372036854775807", "+7", "007", "-0", "4611686018427387904", "-4611686018427387904", "9223372036854775806"}
-var badIntPool = []string{"abc", "1.5", "9223372036854775808", "-9223372036854775809", "", " 1", "1e3", "0x10", "1 ", "--1", "٣"}
+var badIntPool = []string{"abc", "1.5", "9223372036854775808", "-9223372036854775809", "", " 1", "1e3", "0x10", "1 ", "--1", "٣", "+-1", "1\x00", "1\n", "\t1", "1,0", "0b1", "0o7", "1_0", "+", "-", "(1", "1L", "18446744073709551617"}
 var floatPool = []string{"1", "-0", "0", "1.5", "-2.25", "1e308", "+inf", "-inf", "inf", "3.14159", "0x1p-2", ".5", "1e-7", "100", "9007199254740993", "4.9e-324", "+Inf", "Infinity"}
-var badFloatPool = []string{"abc", "", "(", "1.5.2", "--1", "1e", "0x", " 1"}
+var badFloatPool = []string{"abc", "", "(", "1.5.2", "--1", "1e", "0x", " 1", "1 ", "1\x00", "1,5", "+", "-", ".", "e5", "1e+", "1f", "(1(", "1(", ")1", "[1", "1)", "in", "+-inf"}
+
+// badRangeOnly: ill-formed only as a range bound (one leading parenthesis is the exclusive marker, not more)
+var badRangeOnly = []string{"((1", "(((2.5", "((-inf", "((", "( 1", "(+", "((inf"}
 
 // meaningWords are argument values that mean something somewhere else in the framework: command names, option
 // words, the texts of its sentinel errors, the configuration parameters the server reads itself (in several letter
@@ -598,7 +601,7 @@ func illFormed(t *treq) []mutation {
 				out = append(out, mutation{argv: c, class: "bad-integer"})
 			}
 		case 'F':
-			for _, bad := range badFloatPool {
+			for _, bad := range append([]string{"(1", "(0.5"}, badFloatPool...) {
 				c := clone()
 				c[i] = []byte(bad)
 				out = append(out, mutation{argv: c, class: "bad-float"})
@@ -613,6 +616,11 @@ func illFormed(t *treq) []mutation {
 					c2[i] = append([]byte("("), bad...)
 					out = append(out, mutation{argv: c2, class: "bad-range"})
 				}
+			}
+			for _, bad := range badRangeOnly {
+				c := clone()
+				c[i] = []byte(bad)
+				out = append(out, mutation{argv: c, class: "bad-range"})
 			}
 		}
 	}
